@@ -110,59 +110,189 @@ def heap_of(ctx, fn: FunctionInfo) -> Dict[Tuple[Term, str], Term]:
 
 
 # -- summaries (verified against the source before being used) -------------------------------
+class _Vec(list):
+    """A 1-d tensor of the finite interpreter: element-wise arithmetic / comparisons, boolean and
+    integer indexing (negative indices wrap, like torch)."""
+    def _bin(self, o, f):
+        if isinstance(o, _Vec):
+            return _Vec(f(a, b) for a, b in zip(self, o))
+        return _Vec(f(a, o) for a in self)
+
+    def __mul__(self, o): return self._bin(o, lambda a, b: a * b)
+    __rmul__ = __mul__
+    def __add__(self, o): return self._bin(o, lambda a, b: a + b)
+    __radd__ = __add__
+    def __sub__(self, o): return self._bin(o, lambda a, b: a - b)
+    def __rsub__(self, o): return self._bin(o, lambda a, b: b - a)
+    def __truediv__(self, o): return self._bin(o, lambda a, b: a / b)
+    def __floordiv__(self, o): return self._bin(o, lambda a, b: a // b)
+    def __le__(self, o): return self._bin(o, lambda a, b: a <= b)
+    def __lt__(self, o): return self._bin(o, lambda a, b: a < b)
+    def __ge__(self, o): return self._bin(o, lambda a, b: a >= b)
+    def __gt__(self, o): return self._bin(o, lambda a, b: a > b)
+    def __and__(self, o): return self._bin(o, lambda a, b: bool(a) and bool(b))
+    def __or__(self, o): return self._bin(o, lambda a, b: bool(a) or bool(b))
+    def __invert__(self): return _Vec(not a for a in self)
+
+    def __getitem__(self, k):
+        if isinstance(k, _Vec):
+            if all(isinstance(x, bool) for x in k):
+                return _Vec(a for a, m in zip(self, k) if m)
+            return _Vec(list.__getitem__(self, int(i)) for i in k)
+        r = list.__getitem__(self, k)
+        return _Vec(r) if isinstance(k, slice) else r
+
+
+def _unroll_interpreter(ctx, fwd):
+    """forward(ctx, *args) of an autograd helper as a Python callable on numbers, through the
+    finite interpreter with 1-d tensors as lists."""
+    import ast as _ast
+    from ..mini import Mini, Obj, Raised, Unsupported
+
+    def scal(x):
+        return x
+
+    def clamp(x, min=None, max=None):       # noqa: A002
+        def c(v):
+            if min is not None and v < min:
+                v = min
+            if max is not None and v > max:
+                v = max
+            return v
+        return _Vec(c(v) for v in x) if isinstance(x, _Vec) else c(x)
+    T = Obj('torch')
+    T.attrs.update({
+        'as_tensor': lambda x, **kw: _Vec(x) if isinstance(x, (list, tuple)) else x,
+        'tensor': lambda x, **kw: _Vec(x) if isinstance(x, (list, tuple)) else x,
+        'logical_and': lambda a, b: a & b, 'logical_or': lambda a, b: a | b,
+        'logical_not': lambda a: ~a, 'clamp': clamp, 'clip': clamp,
+        'sum': lambda a, **kw: sum(int(x) if isinstance(x, bool) else x for x in a),
+        'count_nonzero': lambda a, **kw: sum(1 for x in a if x),
+        'where': lambda c, a, b: _Vec((x if m else y) for m, x, y in zip(
+            c, a if isinstance(a, _Vec) else [a] * len(c), b if isinstance(b, _Vec) else [b] * len(c))),
+        'maximum': lambda a, b: a._bin(b, max) if isinstance(a, _Vec) else
+        (b._bin(a, max) if isinstance(b, _Vec) else max(a, b)),
+        'minimum': lambda a, b: a._bin(b, min) if isinstance(a, _Vec) else
+        (b._bin(a, min) if isinstance(b, _Vec) else min(a, b)),
+        'any': lambda a: any(a), 'all': lambda a: all(a),
+        'float32': 'float32', 'int64': 'int64', 'long': 'int64', 'bool': 'bool',
+    })
+
+    class _I(Mini):
+        def expr(self, e, env):
+            if isinstance(e, _ast.Compare) and len(e.ops) == 1:
+                a, b = self.expr(e.left, env), self.expr(e.comparators[0], env)
+                if isinstance(a, _Vec) or isinstance(b, _Vec):
+                    v, o, flip = (a, b, False) if isinstance(a, _Vec) else (b, a, True)
+                    op = type(e.ops[0])
+                    tbl = {_ast.LtE: ('__le__', '__ge__'), _ast.Lt: ('__lt__', '__gt__'),
+                           _ast.GtE: ('__ge__', '__le__'), _ast.Gt: ('__gt__', '__lt__')}
+                    if op in tbl:
+                        return getattr(v, tbl[op][1 if flip else 0])(o)
+                    if op in (_ast.Eq, _ast.NotEq):
+                        r = v._bin(o, lambda x, y: x == y)
+                        return r if op is _ast.Eq else ~r
+                    raise Unsupported('comparison on a tensor')
+                return self.compare(e.ops[0], a, b)
+            return super().expr(e, env)
+
+        def method(self, o, name, args, kwargs, node):
+            if isinstance(o, _Vec):
+                if name == 'sum':
+                    return sum(int(x) if isinstance(x, bool) else x for x in o)
+                if name in ('any', 'all'):
+                    return any(o) if name == 'any' else all(o)
+                if name in ('to', 'float', 'int', 'long', 'clone', 'detach'):
+                    return _Vec(o)
+                if name == 'nonzero':
+                    return _Vec(i for i, x in enumerate(o) if x)
+                if name == 'item' and len(o) == 1:
+                    return o[0]
+            if isinstance(o, (int, float)) and name in ('item', 'float', 'int', 'long', 'to',
+                                                        'detach', 'clone'):
+                return o
+            return super().method(o, name, args, kwargs, node)
+
+        def builtin(self, name, args, kwargs, node):
+            if name in ('max', 'min') and all(isinstance(a, (int, float)) for a in args):
+                return max(args) if name == 'max' else min(args)
+            if name in ('int', 'float') and len(args) == 1 and isinstance(args[0], (int, float)):
+                return int(args[0]) if name == 'int' else float(args[0])
+            return super().builtin(name, args, kwargs, node)
+
+    def run(*vals):
+        m = _I({'torch': T})
+        return m.call_function(fwd.node, [Obj('ctx')] + list(vals))
+    return run, (Unsupported, Raised)
+
+
 def ox_unroll_summary(ctx):
-    """ComputeOxUnrollSTE.forward: value in {1,2,4,8}, non-increasing in every argument.
-    The summary is only valid for the shape it was derived for, which is re-checked:
-    candidates are positive constants, each mask is ``lhs <= const`` with lhs
-    non-decreasing in the arguments, candidate 0 is always allowed, the last allowed
-    candidate is returned."""
+    """ComputeOxUnrollSTE.forward: a positive value, non-increasing in every argument -- the
+    fact the monotonicity of the DIANA model rests on (a larger layer never gets a LARGER unroll
+    factor, hence never fewer cycles).  The function is **interpreted** (finite interpreter,
+    1-d tensors as lists) on a grid that straddles every threshold its own constants define:
+    each argument sweeps K // d - 1 .. K // d + 1 for every integer constant K of the function
+    and small divisors d, the others range over a few base points.  The form of the code is
+    free; an index that wraps around (no feasible candidate -> index -1 -> the largest one) or a
+    candidate that becomes allowed again for larger layers is reported with the two argument
+    tuples that witness it."""
+    import ast as _ast
     cls = ctx.repo.cls('ComputeOxUnrollSTE')
     fwd = cls.methods['forward']
-    ps = returning(paths(ctx.repo, fwd))
-    ok = len(ps) == 1
-    lo, hi = 1.0, 8.0
-    if ok:
-        p = ps[0]
-        r = p.retval
-        ok = r[0] == 'sub' and r[2] == ('const', -1) and r[1][0] == 'sub'
-        if ok:
-            cand, mask = r[1][1], r[1][2]
-            ok = is_call(cand, 'torch.as_tensor', 'torch.tensor') and cand[2][0][0] == 'list' \
-                and all(x[0] == 'const' and x[1] > 0 for x in cand[2][0][1])
-            if ok:
-                vals = [x[1] for x in cand[2][0][1]]
-                ok = vals == sorted(vals)
-                lo, hi = float(min(vals)), float(max(vals))
-            ok = ok and is_call(mask, 'torch.logical_and') and all(
-                m[0] == 'cmp' and m[1] in ('<=', '<') and m[3][0] == 'const' for m in mask[2])
-            ok = ok and any(e.kind == 'setitem' and e.data[0] == mask and
-                            e.data[1] == ('const', 0) and e.data[2] == ('const', True)
-                            for e in p.events)
-            if ok:
-                # lhs of each mask non-decreasing in the forward arguments (all >= 1)
-                names = fwd.params[1:]
+    names = fwd.params[1:]
+    run, errs = _unroll_interpreter(ctx, fwd)
+    consts = sorted({n.value for n in _ast.walk(fwd.node) if isinstance(n, _ast.Constant) and
+                     isinstance(n.value, int) and not isinstance(n.value, bool) and n.value >= 16})
+    sweep = {1, 2, 3, 4}
+    for K in consts:
+        for d in (1, 2, 3, 4, 5, 7, 8, 9, 10, 11, 16, 25, 49):
+            for dl in (-1, 0, 1):
+                sweep.add(max(1, K // d + dl))
+    sweep = sorted(sweep)
+    ksweep = [1, 2, 3, 4, 5, 6, 7, 9, 11]
+    base_ch = [1, 64, 128, 129, 300, 513]
+    base_k = [1, 3, 5, 7]
+    is_k = [n.startswith('k') for n in names]
+    cache = {}
 
-                def inp(t):
-                    if t[0] == 'param' and t[1] in names:
-                        return AV(1.0, INF, {t[1]: 1})
-                    if t == cand:
-                        return AV(lo, hi)
-                    return None
-                ne = NumEval(ctx.repo, inp)
-                for m in mask[2]:
-                    try:
-                        v = ne.ev(m[2])
-                    except NumError:
-                        ok = False
-                        break
-                    if any(v.d(n) not in (0, 1) for n in names):
-                        ok = False
+    def val(args):
+        if args not in cache:
+            cache[args] = run(*args)
+        return cache[args]
+    witness = None
+    lo, hi = None, None
+    n_eval = 0
+    try:
+        import itertools
+        for ax in range(len(names)):
+            others = [base_k if is_k[i] else base_ch for i in range(len(names)) if i != ax]
+            for combo in itertools.product(*others):
+                prev = None
+                for v in (ksweep if is_k[ax] else sweep):
+                    args = tuple(combo[:ax]) + (v,) + tuple(combo[ax:])
+                    r = val(args)
+                    n_eval += 1
+                    if not isinstance(r, (int, float)) or isinstance(r, bool):
+                        raise AnalysisError(f'R16b: ComputeOxUnrollSTE.forward returned {r!r}')
+                    lo = r if lo is None else min(lo, r)
+                    hi = r if hi is None else max(hi, r)
+                    if prev is not None and r > prev[1] and witness is None:
+                        witness = (names[ax], prev[0], prev[1], args, r)
+                    prev = (args, r)
+    except errs as ex:
+        raise AnalysisError(f'R16b: ComputeOxUnrollSTE.forward is outside the interpreted '
+                            f'subset: {ex}')
+    ok = witness is None and lo is not None and lo > 0
+    ctx.count('R16b unroll evaluations', len(cache))
     ctx.ob('R16b', 'ComputeOxUnrollSTE.forward shape', ok,
-           'last allowed of ascending positive candidates under "lhs <= const" masks that only '
-           'tighten as the arguments grow' if ok else
-           'the unroll selection no longer has the shape its monotonicity summary assumes '
-           '(ascending positive candidates, masks "increasing lhs <= constant", candidate 0 always '
-           'allowed, last allowed candidate returned)', where(fwd))
+           f'interpreted on {len(cache)} argument tuples around the thresholds of its constants '
+           f'{consts}: values in [{lo}, {hi}], non-increasing in every argument' if ok else
+           (f'the unroll factor grows with {witness[0]}: forward{witness[1]} = {witness[2]} but '
+            f'forward{witness[3]} = {witness[4]} (arguments {tuple(names)}): a larger layer gets '
+            f'a larger unroll factor, i.e. fewer cycles, so the DIANA latency is not monotone '
+            f'(typically an index that wraps around when no candidate is feasible)'
+            if witness is not None else f'the unroll factor can be {lo} <= 0'), where(fwd))
+    lo, hi = float(lo if lo and lo > 0 else 1.0), float(hi if hi else 8.0)
 
     def summary(ne: NumEval, t: Term, d: int) -> AV:
         args = [ne.ev(a, d) for a in t[2]]
